@@ -9,11 +9,15 @@ use std::path::Path;
 
 const EXP: i64 = BASE_TIME + 3650 * DAY;
 const ODD_ROLE: &str = "role/\u{fc} x";
+/// second-level role, delegated by ODD_ROLE
+const SUB_ROLE: &str = "sub%2Frole";
+const ALL: [&str; 4] = ["t1", "t2", "d/x", "d/e/y"];
 
 fn concrete(n: &str) -> &'static str {
     match n {
         "t1" => "docs/read me.txt",
         "t2" => "bin/tool-\u{e9}.bin",
+        "d/e/y" => "d/e/y.bin",
         _ => "d/x.bin",
     }
 }
@@ -38,7 +42,7 @@ fn listing(dir: &Path) -> Vec<String> {
 }
 
 fn source(consistent: bool, rootv: u64, corrupt: &str) -> (MemTransport, Vec<u8>) {
-    let (r, ts, sn, tg, d) = (ed_key(100), ed_key(101), ed_key(102), ed_key(103), ed_key(110));
+    let (r, ts, sn, tg, d, ek) = (ed_key(100), ed_key(101), ed_key(102), ed_key(103), ed_key(110), ed_key(111));
     let t = MemTransport::new();
     let mut shipped = Vec::new();
     for v in 1..=rootv {
@@ -58,17 +62,23 @@ fn source(consistent: bool, rootv: u64, corrupt: &str) -> (MemTransport, Vec<u8>
     dentries.insert(concrete("d/x").into(), target_entry(&content("d/x")));
     let dj = delegations_json(&[&d], vec![delegated_role_json(ODD_ROLE, &[d.keyid.clone()], 1, &["d/*"], false)]);
     let tg_bytes = to_bytes(&envelope(&targets_signed(3, EXP, entries, Some(dj)), &[&tg]));
-    let d_bytes = to_bytes(&envelope(&targets_signed(2, EXP, dentries, None), &[&d]));
+    let mut eentries = Map::new();
+    eentries.insert(concrete("d/e/y").into(), target_entry(&content("d/e/y")));
+    let e_bytes = to_bytes(&envelope(&targets_signed(4, EXP, eentries, None), &[&ek]));
+    let ddj = delegations_json(&[&ek], vec![delegated_role_json(SUB_ROLE, &[ek.keyid.clone()], 1, &["d/e/*"], false)]);
+    let d_bytes = to_bytes(&envelope(&targets_signed(2, EXP, dentries, Some(ddj)), &[&d]));
     let mut meta = Map::new();
     meta.insert("targets.json".into(), meta_entry(3, Some(tg_bytes.len() as u64), Some(&sha256_hex(&tg_bytes))));
     meta.insert(format!("{ODD_ROLE}.json"), meta_entry(2, None, None));
+    meta.insert(format!("{SUB_ROLE}.json"), meta_entry(4, Some(e_bytes.len() as u64), Some(&sha256_hex(&e_bytes))));
+    t.put_body(&pre(4, "sub%252Frole.json"), e_bytes);
     let enc = "role%2F%C3%BC%20x.json";
     t.put_body(&pre(3, "targets.json"), tg_bytes);
     t.put_body(&pre(2, enc), d_bytes);
     let sn_bytes = to_bytes(&envelope(&snapshot_signed(5, EXP, meta), &[&sn]));
     t.put_body(&pre(5, "snapshot.json"), sn_bytes.clone());
     t.put_body("metadata/timestamp.json", to_bytes(&envelope(&timestamp_signed(7, EXP, meta_entry(5, Some(sn_bytes.len() as u64), Some(&sha256_hex(&sn_bytes)))), &[&ts])));
-    for n in ["t1", "t2", "d/x"] {
+    for n in ALL {
         let c = content(n);
         let served = if corrupt == n { let mut x = c.clone(); let l = x.len(); x[l / 2] ^= 0x20; x } else { c.clone() };
         let fname = if consistent { format!("{}.{}", sha256_hex(&c), concrete(n)) } else { concrete(n).to_string() };
@@ -105,7 +115,7 @@ async fn case(c: &Value, variant: usize) -> Value {
     let list = listing(&parent);
     // what landed in the targets directory, and whether it is the verified content
     let mut stored = Map::new();
-    for n in ["t1", "t2", "d/x"] {
+    for n in ALL {
         let c0 = content(n);
         let fname = if consistent { format!("{}.{}", sha256_hex(&c0), concrete(n)) } else { concrete(n).to_string() };
         let v = match std::fs::read(tg.join(&fname)) {
@@ -135,7 +145,10 @@ async fn case(c: &Value, variant: usize) -> Value {
                     && r2.snapshot().signed.version == repo.snapshot().signed.version
                     && r2.targets().signed.version == repo.targets().signed.version
                     && r2.delegated_role(ODD_ROLE).and_then(|d| d.targets.as_ref()).map(|x| x.signed.version)
-                        == repo.delegated_role(ODD_ROLE).and_then(|d| d.targets.as_ref()).map(|x| x.signed.version);
+                        == repo.delegated_role(ODD_ROLE).and_then(|d| d.targets.as_ref()).map(|x| x.signed.version)
+                    && r2.delegated_role(SUB_ROLE).and_then(|d| d.targets.as_ref()).map(|x| x.signed.version)
+                        == repo.delegated_role(SUB_ROLE).and_then(|d| d.targets.as_ref()).map(|x| x.signed.version)
+                    && repo.delegated_role(SUB_ROLE).and_then(|d| d.targets.as_ref()).is_some();
                 let mut reads = Map::new();
                 for n in &wanted {
                     use tough::IntoVec;
